@@ -272,6 +272,13 @@ func (e *Engine) Store(d *Desc) {
 		p = "p2"
 	}
 	if ans, ok := e.ask("store " + hx(b.Block.Hash) + " " + p + " " + e.steps[len(e.steps)-1].Diff); ok {
+		if strings.HasSuffix(ans, " not-wf") {
+			// the diff is outside the hypothesis of the theorems (Diff.WF); still compared
+			ans = strings.TrimSuffix(ans, " not-wf")
+			e.hit("block:diff-outside-theorem-hypothesis(not-wf)")
+		} else {
+			e.hit("block:diff-meets-theorem-hypothesis(wf)")
+		}
 		if ans != "new=ok legacy=ok" {
 			e.fail(Failure{Sig: "model-store-result", What: "model: " + ans + ", implementation: ok", Query: map[string]any{"step": len(e.steps) - 1}})
 		}
